@@ -460,10 +460,11 @@ package termincommittee
 //@   modifies @TIC, ghost:countedP, ghost:countedC
 
 //@ func (*TermInCommittee).HandlePrePrepare
+//@   assert before call ValidateBlockProposal [O18.the-proposer-named-to-the-consumer-is-the-leader-of-the-proposal-view] $memberId == LeaderOf(tic.committeeMembers, ppm.content.SignedHeader().View()) && $blockHeight == ppm.content.SignedHeader().BlockHeight() && $block == ppm.block && $blockHash == ppm.content.SignedHeader().BlockHash()
 //@   assert before call For [O15.7.validation-runs-under-the-context-of-the-proposal-view] $hv.height == tic.State.height && $hv.view == ppm.content.SignedHeader().View()
 //@   requires [term-not-yet-committed] ncommitted == 0
 //@   ensures [O9.lock-kept] LockKept(tic, old(tic.preparedLocally), old(tic.preparedLocally.isPreparedLocally), old(tic.preparedLocally.latestView))
-//@   props C04 C07 C08 C10 C09 C15 C12
+//@   props C04 C07 C08 C10 C09 C15 C12 C18
 //@   safety iface
 //@   requires TicOK(tic)
 //@   inv GhostInv(tic)
@@ -557,11 +558,12 @@ package termincommittee
 //@   ensures [frame] tic.State.height == old(tic.State.height) && tic.State == old(tic.State)
 
 //@ func (*TermInCommittee).HandleNewView
+//@   assert before call ValidateBlockProposal [O18.the-proposer-named-to-the-consumer-is-the-leader-of-the-new-view] $memberId == LeaderOf(tic.committeeMembers, nvm.content.SignedHeader().View()) && $blockHeight == nvm.content.SignedHeader().BlockHeight() && $block == nvm.block && $blockHash == nvm.content.Message().SignedHeader().BlockHash()
 //@   assert before call For [O15.7.validation-runs-under-the-context-of-the-new-view] $hv.height == tic.State.height && $hv.view == nvm.content.SignedHeader().View()
 //@   assert before call processPreprepare [O15.6.context-observed-live-after-validation] latestVote != nil || lastCtxErrNil
 //@   requires [term-not-yet-committed] ncommitted == 0
 //@   ensures [O9.lock-kept] LockKept(tic, old(tic.preparedLocally), old(tic.preparedLocally.isPreparedLocally), old(tic.preparedLocally.latestView))
-//@   props C04 C07 C08 C10 C09 C15 C12 C11
+//@   props C04 C07 C08 C10 C09 C15 C12 C11 C18
 //@   safety iface
 //@   requires TicOK(tic)
 //@   inv GhostInv(tic)
